@@ -443,7 +443,8 @@ TEXT = ("Held on every window observed: ~30 000 (quick) / ~10^6 (thorough) recor
         "with the trigger set derived from public task attributes (exact set, exactly once), the true data-flow "
         "order and the write trace; idempotent windows are re-run under several start-set permutations and the "
         "evidence counts windows seen under >= 2 distinct valid orders; cyclic graphs checked for the logical "
-        "termination bound. Exploration over sampled graphs and schedules.")
+        "termination bound. Exploration over sampled graphs and schedules."
+        ' One world in five uses hash-colliding integer sibling keys (-1/-2, 0/2**61-1).')
 NOTE = ("Trusted: run events come from class-level wrappers of ExprTask/FunctionTask/LinearKnob.run (a window with "
         "writes but no run events would make the deciding counters zero => inconclusive); the generator's true "
         "data-flow relation; start-set shuffling only produces orders a set iteration can really have.")
